@@ -42,7 +42,13 @@ def _lik(newick, M, columns, tips_order=None, Pmap=None, pi=None, profiles=None,
     return tree, lht.get_full_length_likelihoods(lh), lht.get_log_sum_across_sites(lh), lht, lh
 
 
-def _symbols(M, edges, tips, npat=2):
+def _symbols(M, edges, tips, npat=2, vals=None):
+    if vals is not None:  # float replay of a solver model (unassigned symbols: 0, as z3's model completion)
+        g = lambda k: float(vals.get(k, 0.0))
+        P = {e: numpy.array([[g(f"P_{e}_{i}{j}") for j in range(M)] for i in range(M)]) for e in edges}
+        pi = numpy.array([g(f"pi{i}") for i in range(M)])
+        profiles = {t: {k: [g(f"L_{t}_{k}_{y}") for y in range(M)] for k in range(npat)} for t in tips}
+        return P, pi, profiles
     P = {e: psx.obj_array((M, M), lambda i, j, e=e: psx.real(f"P_{e}_{i}{j}")) for e in edges}
     pi = psx.obj_array(M, lambda i: psx.real(f"pi{i}"))
     profiles = {t: {k: [psx.real(f"L_{t}_{k}_{y}") for y in range(M)] for k in range(npat)} for t in tips}
@@ -55,7 +61,7 @@ def _decide_equal_lists(A, xs, ys, what):
         r, m, dt = psx.check_valid(A, psx.term(x) == psx.term(y), timeout_ms=600000)
         nq += 1
         if r == "sat":
-            return {"status": "cex", "cex": {"what": f"{what} column {i}", "values": {str(d): str(m[d]) for d in m.decls()}}, "queries": nq}
+            return {"status": "cex", "cex": {"what": f"{what} column {i}", "values": {str(d): psx.model_float(m, d()) for d in m.decls() if d.arity() == 0}}, "queries": nq}
         if r != "unsat":
             return {"status": "inconclusive", "detail": f"{what} column {i}: z3 {r} after {dt:.0f}s"}
     return {"status": "holds", "queries": nq}
@@ -63,15 +69,19 @@ def _decide_equal_lists(A, xs, ys, what):
 
 def mk_invariance(kind, M, _replay=None):
     t0 = time.time()
-    c02.install_py_kernels()
+    vals = None
     if _replay is not None:
-        return {"status": "not_reproduced", "detail": "no float replay implemented for C11 (counterexamples are reported as inconclusive)"}
+        vals = _replay.get("values")
+        if vals is None:
+            return {"status": "not_reproduced", "detail": "counterexample carries no values"}
+    else:
+        c02.install_py_kernels()
     cols4 = lambda n: [tuple(0 for _ in range(n)), tuple((i % 2) for i in range(n)), tuple(1 for _ in range(n)), tuple(((i + 1) % 2) for i in range(n))]
     A = []
     if kind == "children_order":
         n1, n2 = "((a,b)ab,c,d)root;", "(d,(b,a)ab,c)root;"
         tips = ["a", "b", "c", "d"]
-        P, pi, prof = _symbols(M, ["a", "b", "ab", "c", "d"], tips)
+        P, pi, prof = _symbols(M, ["a", "b", "ab", "c", "d"], tips, vals=vals)
         cols = cols4(4)
 
         def run():
@@ -83,7 +93,7 @@ def mk_invariance(kind, M, _replay=None):
         # same tree, alignment rows supplied in a different order (the unique-column index is built per row order)
         n1 = "((a,b)ab,c)root;"
         tips = ["a", "b", "c"]
-        P, pi, prof = _symbols(M, ["a", "b", "ab", "c"], tips)
+        P, pi, prof = _symbols(M, ["a", "b", "ab", "c"], tips, vals=vals)
         cols = cols4(3)
 
         def run():
@@ -97,10 +107,10 @@ def mk_invariance(kind, M, _replay=None):
     elif kind in ("column_permutation", "column_duplication", "column_kfold"):
         n1 = "((a,b)ab,c)root;"
         tips = ["a", "b", "c"]
-        P, pi, prof = _symbols(M, ["a", "b", "ab", "c"], tips)
+        P, pi, prof = _symbols(M, ["a", "b", "ab", "c"], tips, vals=vals)
         cols = cols4(3)[:3]
-        k = z3.Real("k")
-        A = [k >= 1]
+        k = z3.Real("k") if vals is None else float(vals.get("k", 2.0))
+        A = [k >= 1] if vals is None else []
 
         def run():
             r1 = _lik(n1, M, cols, tips, P, pi, prof)
@@ -112,6 +122,9 @@ def mk_invariance(kind, M, _replay=None):
                 return [2 * r1[2]], [r2[2]], None, None
             # every column repeated k times: the real root edge with its counts scaled by a symbolic k
             lht, lh = r1[3], r1[4]
+            if vals is not None:
+                lht.counts = numpy.array([k * float(c) for c in lht.counts], dtype=float)
+                return [k * r1[2]], [lht.get_log_sum_across_sites(lh)], None, None
             lht.counts = numpy.array([psx.SReal(k) * float(c) for c in lht.counts], dtype=object)
             tk = lht.get_log_sum_across_sites(lh)
             return [psx.SReal(k) * r1[2]], [tk], None, None
@@ -120,7 +133,7 @@ def mk_invariance(kind, M, _replay=None):
         # edge root->a split by a single-child node x: matrices P_x (root->x), P_a2 (x->a); equals one edge with P_x @ P_a2
         n_split, n_plain = "((a)x,b)root;", "(a,b)root;"
         tips = ["a", "b"]
-        P, pi, prof = _symbols(M, ["x", "a", "b"], tips)
+        P, pi, prof = _symbols(M, ["x", "a", "b"], tips, vals=vals)
         cols = cols4(2)
 
         def run():
@@ -132,7 +145,7 @@ def mk_invariance(kind, M, _replay=None):
     elif kind == "edge_split_internal":
         n_split, n_plain = "(((a,b)ab)x,c)root;", "((a,b)ab,c)root;"
         tips = ["a", "b", "c"]
-        P, pi, prof = _symbols(M, ["x", "a", "b", "ab", "c"], tips)
+        P, pi, prof = _symbols(M, ["x", "a", "b", "ab", "c"], tips, vals=vals)
         cols = cols4(3)
 
         def run():
@@ -146,9 +159,9 @@ def mk_invariance(kind, M, _replay=None):
         # edge (u,v) with matrix P_v in detailed balance with pi: root at u  ==  root at v
         n_u, n_v = "(a,b,(c,d)v)root;", "((a,b)u,c,d)root;"
         tips = ["a", "b", "c", "d"]
-        P, pi, prof = _symbols(M, ["a", "b", "c", "d", "v"], tips)
+        P, pi, prof = _symbols(M, ["a", "b", "c", "d", "v"], tips, vals=vals)
         cols = cols4(4)[:2]
-        for x in range(M):
+        for x in (range(M) if vals is None else ()):
             for y in range(M):
                 if y > x:
                     A.append(psx.term(pi[x]) * psx.term(P["v"][x, y]) == psx.term(pi[y]) * psx.term(P["v"][y, x]))
@@ -163,9 +176,9 @@ def mk_invariance(kind, M, _replay=None):
     elif kind == "root_move_cherry":
         n_u, n_v = "(a,(b,c)v)root;", "((a)u,b,c)root;"
         tips = ["a", "b", "c"]
-        P, pi, prof = _symbols(M, ["a", "b", "c", "v"], tips)
+        P, pi, prof = _symbols(M, ["a", "b", "c", "v"], tips, vals=vals)
         cols = cols4(3)[:2]
-        for x in range(M):
+        for x in (range(M) if vals is None else ()):
             for y in range(M):
                 if y > x:
                     A.append(psx.term(pi[x]) * psx.term(P["v"][x, y]) == psx.term(pi[y]) * psx.term(P["v"][y, x]))
@@ -180,6 +193,12 @@ def mk_invariance(kind, M, _replay=None):
     else:
         raise KeyError(kind)
 
+    if vals is not None:
+        # replay: the same two arrangements, floats, the real Defn graph and the compiled kernels
+        xs, ys, t1, t2 = run()
+        pairs = list(zip(xs, ys)) + ([(t1, t2)] if t1 is not None else [])
+        bad = [f"{float(x)!r} != {float(y)!r}" for x, y in pairs if not abs(float(x) - float(y)) <= 1e-9 * max(1.0, abs(float(x)), abs(float(y)))]
+        return {"status": "reproduced" if bad else "not_reproduced", "detail": "; ".join(bad)[:400]}
     paths, stats = psx.explore(run, A)
     if len(paths) != 1 or paths[0].exc is not None:
         return {"status": "inconclusive", "detail": f"forked or raised: {paths[0].exc!r}"}
@@ -191,7 +210,8 @@ def mk_invariance(kind, M, _replay=None):
         r, info = psx.prove_equal_modulo_uf(A, psx.term(xs[0]), psx.term(ys[0]))
         nq += info["queries"]
         if r == "sat":
-            return {"status": "cex", "cex": {"what": kind}, "queries": nq}
+            m = info["model"]
+            return {"status": "cex", "cex": {"what": kind, "values": {str(d): psx.model_float(m, d()) for d in m.decls() if d.arity() == 0}}, "queries": nq}
         if r != "unsat":
             return {"status": "inconclusive", "detail": f"z3 {r} matched={info['matched']} apps={info['apps']}"}
         return {"status": "holds", "paths": 1, "queries": nq, "solver_s": round(time.time() - t0, 2)}
@@ -202,8 +222,11 @@ def mk_invariance(kind, M, _replay=None):
     if t1 is not None:
         r, info = psx.prove_equal_modulo_uf(A, psx.term(t1), psx.term(t2))
         nq += info["queries"]
+        if r == "sat":
+            m = info["model"]
+            return {"status": "cex", "cex": {"what": "total lnL", "values": {str(d): psx.model_float(m, d()) for d in m.decls() if d.arity() == 0}}}
         if r != "unsat":
-            return {"status": "cex" if r == "sat" else "inconclusive", "cex": {"what": "total lnL"}, "detail": f"total: z3 {r}"}
+            return {"status": "inconclusive", "detail": f"total: z3 {r}"}
     return {"status": "holds", "paths": 1, "queries": nq, "detail": f"{len(xs)} columns compared, states={M}", "solver_s": round(time.time() - t0, 2)}
 
 
